@@ -63,7 +63,13 @@ func (u Unsupported) VerifUnsupported() string { return u.What }
 type Opts struct {
 	MaxSteps    int  // step horizon (default 20000): exceeding it is reported as livelock
 	AutoAdvance bool // when no thread is enabled, jump the virtual clock to the next timer/sleeper deadline
-	Start       time.Time
+	// DelayBounded makes every departure from the deterministic round-robin
+	// scheduler cost one unit of the preemption budget, including the choice of
+	// who runs when the current thread blocks (delay bounding, Emmi et al. 2011).
+	// Without it only preemptions of a runnable thread are bounded and the
+	// choice at a blocking point is free (CHESS-style).
+	DelayBounded bool
+	Start        time.Time
 }
 
 // Result is what one scheduled execution observed.
@@ -93,6 +99,7 @@ type Sched struct {
 	timers    []*Timer
 	trace     []string
 	nextTimer int
+	lastRun   int
 }
 
 // S is the active scheduler (nil outside Run).
@@ -121,6 +128,15 @@ func Now() time.Time {
 		return clockNow
 	}
 	return time.Now()
+}
+
+// Elapsed returns the virtual time elapsed since the active scheduler started
+// (0 outside a scheduled execution).
+func Elapsed() time.Duration {
+	if s := S; s != nil {
+		return clockNow.Sub(s.opts.Start)
+	}
+	return 0
 }
 
 // ClockFrozen reports whether the virtual clock is in use.
@@ -291,15 +307,27 @@ func (s *Sched) pick(cur *Thread) *Thread {
 			return nil
 		}
 		if len(cands) == 1 {
+			s.lastRun = cands[0].id
 			return cands[0]
 		}
 		s.contended++
 		var idx int
-		if curEnabled {
+		switch {
+		case curEnabled:
 			idx = s.x.Preempt(len(cands), s.label(cur))
-		} else {
+		case s.opts.DelayBounded:
+			// round-robin default: the first enabled thread after the last runner
+			last := s.lastRun
+			sort.SliceStable(cands, func(i, j int) bool {
+				di := (cands[i].id - last - 1 + len(s.threads)*2) % (len(s.threads) * 2)
+				dj := (cands[j].id - last - 1 + len(s.threads)*2) % (len(s.threads) * 2)
+				return di < dj
+			})
+			idx = s.x.Preempt(len(cands), "sched-delay")
+		default:
 			idx = s.x.Choose(len(cands), "sched")
 		}
+		s.lastRun = cands[idx].id
 		return cands[idx]
 	}
 }
